@@ -352,6 +352,15 @@ func checkC10(c *Check, p *Program) {
 		}
 	})
 
+	// the closure may transmit the disconnect request itself (sender inlined into Close)
+	if discCall == nil && t.discSender == onceFn {
+		for _, s := range ix.sockSends {
+			if s.payloadIs("DiscReq") && s.Fn == onceFn {
+				discCall = s.Call
+			}
+		}
+	}
+
 	// ---- K2
 	closes := ix.opsOnField(a.done, "close")
 	c.Exact("C10.K2", "close(Tunnel.done) sites", len(closes), 1, "")
